@@ -181,6 +181,9 @@ let () =
            | "checkonly" -> if check_only_ok (names_of_string (a 1)) then "true" else "false"
            | "place" -> string_of_name (place_name (name_of_string (a 1)) (a 2 = "1"))
            | "unplace" -> (match place_to_variable (name_of_string (a 1)) with None -> "none" | Some (v, b) -> string_of_name v ^ " " ^ (if b then "1" else "0"))
+           | "msubspace" -> if subspace (space_of_string (a 1)) (space_of_string (a 2)) then "1" else "0"
+           | "mintersect" -> (match intersect (space_of_string (a 1)) (space_of_string (a 2)) with None -> "none" | Some z -> string_of_space z)
+           | "mkey" -> string_of_int (int_of_n (space_key (space_of_string (a 1))))
            | "pyfun" ->
                (* the functions generated from the Python sources by tools/py2coq.py (theories/PySrc.v); dicts as k:v,k:v in insertion order *)
                let dict_of s = if s = "-" then [] else List.map (fun kv -> match String.split_on_char ':' kv with
